@@ -8,9 +8,13 @@ replay = c02.replay
 
 def shapes_for(tier):
     if tier == 'quick':
-        return [('B11a', 'cudd'), ('S11', 'cudd'), ('B02', 'cudd'), ('S11', 'autoref')]
+        return [('B11a', 'cudd'), ('S11', 'cudd'), ('B02', 'cudd'), ('S11', 'autoref'),
+                # exact liveness with two recurrence goals on a closed system, one mode (about 200 s of z3)
+                ('B02g2', 'cudd', ('init', 'closure', 'nonblock'), [(True, False)])]
     return [('B11a', 'cudd'), ('S11h2', 'cudd'), ('S11g2', 'cudd'), ('B11b', 'cudd'), ('S11', 'cudd'),
-            ('B02', 'cudd'), ('S11', 'autoref')]
+            ('B02', 'cudd'), ('S11', 'autoref'),
+            # two goals on a closed system: 28 constants; the non-blocking query goes `unknown` there, members cover it
+            ('B02g2', 'cudd', ('nonblock',))]
 
 
 def run(tier, seed, t0, only=None):
